@@ -40,6 +40,7 @@ struct PlanT {
     uint64_t content_seed = 0;
     int sessions = 1;
     int relation[3] = {0, 0, 0}; // session i vs session 0: 0 independent, 1 same key, 2 same header, 3 twin (both)
+    uint32_t key_in_state = 0;   // bit 0 / bit 1: the key handed to init_push / init_pull lives in the state object being initialised (state->k)
     uint32_t state_align = 0;    // two 4-bit offsets: where the sender's / receiver's state object sits modulo 16
     uint32_t start_counter = 0;  // both ends' chunk counter := this value right after init (0 = leave at 1): simulates a long-lived stream
     std::vector<Op> ops;
@@ -115,10 +116,14 @@ struct Exec {
             g_src.reset(plan.content_seed);
             g_src.script.assign(h.begin(), h.end());
             unsigned char hdr[24];
-            { LibScope l; crypto_secretstream_xchacha20poly1305_init_push(&s.ps(), hdr, s.key); }
+            const unsigned char *kp = s.key;
+            if (plan.key_in_state & 1) { memcpy(s.ps().k, s.key, 32); kp = s.ps().k; res.count("probe.key_argument_inside_state"); } // a chained session re-keyed from its own state
+            { LibScope l; crypto_secretstream_xchacha20poly1305_init_push(&s.ps(), hdr, kp); }
             memcpy(s.header, hdr, 24);
             if (memcmp(hdr, h.data(), 24) != 0) res.fail("header-not-from-source", "init_push", "header differs from the bytes served by the random source", step);
-            { LibScope l; crypto_secretstream_xchacha20poly1305_init_pull(&s.pl(), s.header, s.key); }
+            kp = s.key;
+            if (plan.key_in_state & 2) { memcpy(s.pl().k, s.key, 32); kp = s.pl().k; }
+            { LibScope l; crypto_secretstream_xchacha20poly1305_init_pull(&s.pl(), s.header, kp); }
             ref::stream_init(s.model_push, s.header, s.key);
             if (!real_eq_model(s.ps(), s.model_push)) res.fail("state-desync", "init_push", "state after init_push differs from the documented construction", step);
             if (!real_eq_model(s.pl(), s.model_push)) res.fail("state-desync", "init_pull", "state after init_pull differs from the documented construction", step);
@@ -468,6 +473,7 @@ struct C09 {
         p.content_seed = mix64(rs, 0xc0117e17);
         p.sessions = (int) (knobs.below(10) < 5 ? 1 : knobs.below(10) < 7 ? 2 : 3);
         p.state_align = (uint32_t) knobs.below(256);
+        p.key_in_state = knobs.chance(1, 6) ? (uint32_t) knobs.range(1, 3) : 0;
         for (int i = 1; i < 3; i++) p.relation[i] = (int) knobs.below(4);
         {
             // 1, or shortly before a boundary of the little-endian counter: full wrap (automatic rekey), and
@@ -532,7 +538,7 @@ struct C09 {
         j["knobs"] = p.pk;
         j["content_seed"] = p.content_seed; j["sessions"] = p.sessions;
         Json rel = Json::array(); for (int i = 0; i < 3; i++) rel.push(p.relation[i]);
-        j["relation"] = rel; j["start_counter"] = p.start_counter; j["state_align"] = p.state_align;
+        j["relation"] = rel; j["start_counter"] = p.start_counter; j["state_align"] = p.state_align; j["key_in_state"] = p.key_in_state;
         Json ops = Json::array();
         for (auto &o : p.ops) {
             Json q = Json::object();
@@ -564,7 +570,7 @@ struct C09 {
         if (p.sessions < 1) p.sessions = 1;
         if (p.sessions > 3) p.sessions = 3;
         for (size_t i = 0; i < 3 && i < j.at("relation").a.size(); i++) p.relation[i] = (int) j.at("relation").a[i].i64();
-        p.start_counter = (uint32_t) j.at("start_counter").u64(); p.state_align = (uint32_t) j.at("state_align").u64();
+        p.start_counter = (uint32_t) j.at("start_counter").u64(); p.state_align = (uint32_t) j.at("state_align").u64(); p.key_in_state = (uint32_t) j.at("key_in_state").u64();
         for (auto &q : j.at("ops").a) {
             Op o;
             std::string k = q.at("op").str();
@@ -599,6 +605,7 @@ struct C09 {
         if (p.pk.at("cpu_disable").u64() != 0) { Plan c = p; c.pk["cpu_disable"] = 0u; push(c); }
         if (p.start_counter) { Plan c = p; c.start_counter = 0; push(c); }
         if (p.state_align) { Plan c = p; c.state_align = 0; push(c); }
+        if (p.key_in_state) { Plan c = p; c.key_in_state = 0; push(c); }
         if (p.start_counter && p.start_counter != 0xffffffffu) { Plan c = p; c.start_counter = 0xffffffffu; push(c); }
         if (p.sessions > 1) { Plan c = p; c.sessions--; push(c); }
         for (int i = 1; i < 3; i++) if (p.relation[i]) { Plan c = p; c.relation[i] = 0; push(c); }
